@@ -4,12 +4,19 @@
    sizes and lengths, either stream flavour) decoding into a fresh object never writes beyond the
    capacity of a destination container — by a reflective check on the read programs regenerated
    from /repo (Lib/SafeFacts.rd_safe), proved sound once (rd_safe_sound) and evaluated in the kernel.
-   PARTIAL: termination of read_session for every byte string and memory-safety outside the
-   decoders (container copy in UncompressedFile, zlib) are decided by differential execution under
-   ASan/UBSan + watchdog on truncations, field mutations and hand-assembled hostile headers. *)
+   C10_parser_terminates: for EVERY uncompressed stream (any bytes) and every allocation cap, the parser stage
+   of the file model (FileModel.obj_loop, the loop of uncompressedFile2ReadWriteQueue) ends by itself with
+   the fuel read_session gives it: every iteration that continues moves the get position forward by at least
+   one byte (Lib/TermFacts.v: the stream on arbitrary positions, read programs that only seek forward, the
+   base header reader consuming 16 bytes, the seek back to the declared end never going behind it).
+   PARTIAL: the inflating stage (cont_loop, std::fstream flavour) has no termination theorem, and
+   memory-safety outside the decoders (container copy in UncompressedFile, zlib) is decided by
+   differential execution under ASan/UBSan + watchdog on truncations, field mutations and
+   hand-assembled hostile headers. *)
 From Coq Require Import String List Bool.
 From VB Require Import Base IR Sem Tables SafeFacts.
 From VB Require Import Classes Consts Common Threads SafeEq.
+From VB Require Import FileModel FileDefs TermFacts TermEq.
 Import ListNotations.
 Local Open Scope string_scope.
 
@@ -35,3 +42,18 @@ Print Assumptions C10_decoders_memory_safe.
 (* the check is not vacuous: there are read programs with length-driven copies, e.g. AppText *)
 Example C10_nonvacuous : rd_safe cs (Rd (class_of_name "AppText")) = true /\ (100 <? Z.of_nat (length object_classes))%Z = true.
 Proof. vm_compute. split; reflexivity. Qed.
+
+(* the parser stage never hangs, whatever the bytes *)
+Theorem C10_parser_terminates : forall cap (U : list Z),
+  snd (obj_loop cs scan_p cap factory_table C_ohb fid_objectSize fid_objectType (2 * length U + 16) (mk_ustream U) [] 0%Z) <> EndFuel.
+Proof. exact parser_terminates. Qed.
+Print Assumptions C10_parser_terminates.
+
+(* its premises, as facts about the regenerated terms: the signature search seeks back by at most 3 bytes after reading 4,
+   the base header reader is the search followed by 2+2+4+4 bytes, and the reader of every class the factory can create
+   begins with that search and only seeks forward *)
+Theorem C10_termination_premises :
+  rules_ok scan_p = true /\ ohb_shape cs (prog_of cs C_ohb M_read) = true /\
+  forallb (fun p => (snd p =? 0)%Z || class_ok cs (snd p)) factory_table = true.
+Proof. split; [exact scan_rules_back_at_most_3|]. split; [exact ohb_reader_shape|exact factory_classes_ok_b]. Qed.
+Print Assumptions C10_termination_premises.
